@@ -191,6 +191,7 @@ def c03c(F, R):
         raise Anchor("CfgNode::is_program_exit not found")
     f = F.fn(p)
     nums = {n["lit"]["v"] for n in walk(f["hir"]["value"]) if n.get("k") == "Lit" and n["lit"]["t"] == "int"}
+    nums |= {lit_value(n) for n in walk(f["hir"]["value"]) if n.get("k") == "Path" and n.get("res_kind") in ("Const", "AssocConst") and isinstance(lit_value(n), int)}
     uses_known = any(n.get("k") == "MethodCall" and n["name"] == "known_ecall" for n in walk(f["hir"]["value"]))
     if nums == want and uses_known:
         R.ok("exit-set", detail=f"is_program_exit compares known_ecall() with {sorted(nums)}", where=f["sp"])
@@ -212,13 +213,14 @@ def c03c(F, R):
             return False
         return any(reaches_mut(q, depth + 1) for q in cgr.get(c, ()) if q in F.fns)
     guarded = set()
-    for n in walk(g["hir"]["value"]):
-        if n.get("k") == "If":
-            c = peel(n["cond"])
-            if c.get("k") == "MethodCall" and callee_of(c) == p:
-                for m in walk(n["then"]):
-                    if m.get("k") in ("MethodCall", "Call") and reaches_mut(callee_of(m)):
-                        guarded.add(id(m))
+    from .p_parse import parent_map as _pm3
+    pm3 = _pm3(g["hir"]["value"])
+
+    def _cls_exit(e):
+        return "exit" if e.get("k") == "MethodCall" and callee_of(e) == p else None
+    for m in walk(g["hir"]["value"]):
+        if m.get("k") in ("MethodCall", "Call") and reaches_mut(callee_of(m)) and implied_by_path(pm3, m, _cls_exit, "exit"):
+            guarded.add(id(m))
     tot = 0
     for m in walk(g["hir"]["value"]):
         if m.get("k") in ("MethodCall", "Call") and reaches_mut(callee_of(m)):
@@ -252,7 +254,54 @@ def c03d(F, R):
         raise Anchor("NodeDirectionPass not found")
     f = F.fn(nd[0])
     found = False
+    lets_ = {s_["pat"]["name"]: s_ for s_ in walk(f["hir"]["value"], pats=False) if s_.get("k") == "Let" and s_["pat"].get("k") == "PBinding" and s_.get("init") is not None}
+
+    def _cls_fall(e):
+        if e.get("k") == "MethodCall" and e["name"] == "is_return":
+            return "ret"
+        if e.get("k") == "MethodCall" and e["name"] == "is_unconditional_jump":
+            return "uj"
+        if e.get("k") == "Path" and e.get("res_kind") == "Local" and e.get("res") in lets_ and (peel(lets_[e["res"]]["init"]).get("ty") == "bool" or lets_[e["res"]]["pat"].get("ty") == "bool"):
+            return None
+        return None
+
+    def _ev_fall(e, env):
+        e = peel(e)
+        while e.get("k") in ("DropTemps", "Use"):
+            e = peel(e["e"])
+        if e.get("k") == "Path" and e.get("res_kind") == "Local" and e.get("res") in lets_:
+            return _ev_fall(lets_[e["res"]]["init"], env)
+        return bool_eval(e, lambda x: ("ret" if x.get("k") == "MethodCall" and x["name"] == "is_return" else "uj" if x.get("k") == "MethodCall" and x["name"] == "is_unconditional_jump" else ("$" + x["res"]) if x.get("k") == "Path" and x.get("res_kind") == "Local" and x.get("res") in lets_ else None),
+                         dict(env, **{"$" + k_: None for k_ in ()}))
+    # second accepted form: `prev = <falls through>.then(|| node)` (Some exactly when control can fall through)
     for n in walk(f["hir"]["value"]):
+        if found:
+            break
+        if n.get("k") == "Assign" and peel(n["l"]).get("res_kind") == "Local":
+            r = peel(n["r"])
+            if r.get("k") == "MethodCall" and r["name"] in ("then", "then_some") and r["args"]:
+                cond = r["recv"]
+
+                def _full(e, env):
+                    e = peel(e)
+                    while e.get("k") in ("DropTemps", "Use"):
+                        e = peel(e["e"])
+                    if e.get("k") == "Path" and e.get("res_kind") == "Local" and e.get("res") in lets_:
+                        return _full(lets_[e["res"]]["init"], env)
+                    return bool_eval(e, lambda x: "ret" if x.get("k") == "MethodCall" and x["name"] == "is_return" else ("uj" if x.get("k") == "MethodCall" and x["name"] == "is_unconditional_jump" else None), env)
+                try:
+                    table = [_full(cond, {"ret": a_, "uj": b_}) for a_ in (False, True) for b_ in (False, True)]
+                except BoolUnx:
+                    table = None
+                if table == [True, False, False, False]:
+                    found = True
+                    R.ok("prev-reset", detail="prev = (!(is_return() || is_unconditional_jump())).then(|| node)", where=loc(n))
+                elif table is not None:
+                    found = True
+                    R.bad("prev-reset", f"the fall-through predecessor is kept under a condition with truth table {table} over (is_return, is_unconditional_jump); it must be kept exactly when neither holds", loc(n))
+    for n in walk(f["hir"]["value"]):
+        if found:
+            break
         if n.get("k") == "Assign" and peel(n["l"]).get("res_kind") == "Local":
             r = peel(n["r"])
             if r.get("k") == "If" and any(short(x.get("res") or "") == "None" for x in walk(r, pats=False) if x.get("k") == "Path"):
@@ -929,11 +978,27 @@ def c11c(F, R):
     lets = {s["pat"]["name"]: s for s in walk(f["hir"]["value"]) if s.get("k") == "Let" and s["pat"].get("k") == "PBinding"}
     fe = [n for n in walk(f["hir"]["value"], pats=False) if n.get("k") == "Call" and short(callee_of(n) or "") == "new_func_entry"]
     guard = None
+
+    def _nonempty_intersection(c):
+        """`A.intersection(&B).next().is_some()` or `!A.is_disjoint(&B)` (also behind a named boolean) -> a pseudo node with recv/args"""
+        c = peel(c)
+        while c.get("k") in ("DropTemps", "Use"):
+            c = peel(c["e"])
+        if c.get("k") == "Path" and c.get("res_kind") == "Local" and c.get("res") in lets and lets[c["res"]].get("init") is not None:
+            return _nonempty_intersection(lets[c["res"]]["init"])
+        inter = [m for m in walk(c, pats=False) if m.get("k") == "MethodCall" and m["name"] == "intersection"]
+        if inter and mentions_call(c, "is_some"):
+            return inter[0]
+        if c.get("k") == "Unary" and c["op"] == "Not":
+            d = peel(c["a"])
+            if d.get("k") == "MethodCall" and d["name"] == "is_disjoint" and d["args"]:
+                return d
+        return None
     for n in walk(f["hir"]["value"], pats=False):
         if n.get("k") == "If" and fe and any(x is fe[0] for x in walk(n["then"], pats=False)):
-            inter = [m for m in walk(n["cond"], pats=False) if m.get("k") == "MethodCall" and m["name"] == "intersection"]
-            if inter and mentions_call(n["cond"], "is_some"):
-                guard = (n, inter[0])
+            g_ = _nonempty_intersection(n["cond"])
+            if g_ is not None:
+                guard = (n, g_)
     flag = None
     if guard is None:
         # alternative form: a boolean accumulated per label and consumed at the instruction
@@ -985,8 +1050,8 @@ def c11c(F, R):
         R.bad("func-entry-guard", "function-entry insertion is no longer guarded by `<current labels> ∩ <call names> ≠ ∅`", f["sp"])
     else:
         n, inter = guard
-        CN = ekey(inter["args"][0])
-        CL = ekey(inter["recv"]).split(".")[0]
+        CN = ekey(inter["args"][0]).lstrip("&*")
+        CL = ekey(inter["recv"]).lstrip("&*").split(".")[0]
         cn = lets.get(CN)
         if cn is None:
             R.bad("call_names", f"UNEXTRACTABLE: no binding for the call-name set `{CN}`", f["sp"])
@@ -1002,7 +1067,7 @@ def c11c(F, R):
                 R.bad("call_names", f"the call-name set `{CN}` is built from {sorted(callees)} / locals {sorted(locals_used - inner - params)}", loc(cn))
         # the labels set must be the one fed from Label nodes and cleared after use
         fed = any(m.get("k") == "MethodCall" and m["name"] == "insert" and ekey(m["recv"]) == CL for m in walk(f["hir"]["value"], pats=False))
-        cleared = any(m.get("k") == "MethodCall" and m["name"] == "clear" and ekey(m["recv"]) == CL for m in walk(n["then"], pats=False))
+        cleared = any(m.get("k") == "MethodCall" and m["name"] in ("clear", "drain") and ekey(m["recv"]) == CL for m in walk(n["then"], pats=False))
         if fed and cleared:
             R.ok("func-entry-guard", detail=f"FuncEntry inserted iff {CL} ∩ {CN} is non-empty; {CL} is cleared afterwards")
         else:
@@ -2639,8 +2704,22 @@ def c03g(F, R):
         g_ = F.fn(fe)
         cmps = [b_ for b_ in walk(g_["hir"]["value"], pats=False) if b_.get("k") == "Binary" and b_["op"] in ("Eq", "Ne") and mentions_call(b_, "entry")]
         rets = [c_ for c_ in walk(g_["hir"]["value"], pats=False) if c_.get("k") == "Call" and short(callee_of(c_) or "") == "Some"]
-        okk = len(cmps) == 1 and cmps[0]["op"] == "Eq" and rets and not any(u_.get("k") == "Unary" and u_["op"] == "Not" for u_ in walk(g_["hir"]["value"], pats=False))
-        if okk:
+        bodies_ = [g_["hir"]["value"]] + [F.fns[x]["hir"]["value"] for x in F.closures_of(fe) if "hir" in F.fns[x]]
+        finds_ = [m_ for m_ in walk(g_["hir"]["value"], pats=False) if m_.get("k") == "MethodCall" and m_["name"] in ("find", "find_map") and mentions_call(m_["recv"], "functions")]
+        if finds_:
+            # `self.functions().iter().find(|f| f.entry() == self).cloned()`
+            cl_cmps = [b_ for bd in bodies_ for b_ in walk(bd, pats=False) if b_.get("k") == "Binary" and b_["op"] in ("Eq", "Ne") and mentions_call(b_, "entry")]
+            negs_ = [u_ for bd in bodies_ for u_ in walk(bd, pats=False) if u_.get("k") == "Unary" and u_["op"] == "Not"]
+            if len(cl_cmps) >= 1 and all(b_["op"] == "Eq" for b_ in cl_cmps) and not negs_:
+                R.ok("is_function_entry_with_func", detail="functions().find(|f| f.entry() == self)", where=g_["sp"])
+            else:
+                R.bad("is_function_entry_with_func", "CfgNode::is_function_entry_with_func does not look for the function whose entry is this node", g_["sp"])
+            okk = None
+        else:
+            okk = len(cmps) == 1 and cmps[0]["op"] == "Eq" and rets and not any(u_.get("k") == "Unary" and u_["op"] == "Not" for u_ in walk(g_["hir"]["value"], pats=False))
+        if okk is None:
+            pass
+        elif okk:
             from .p_parse import parent_map as _pm2
             pm2 = _pm2(g_["hir"]["value"])
             x_ = rets[0]
@@ -2650,7 +2729,9 @@ def c03g(F, R):
                 if x_.get("k") == "If" and any(y is cmps[0] for y in walk(x_["cond"], pats=False)) and any(y is rets[0] for y in walk(x_["then"], pats=False)):
                     under = True
             okk = under
-        if okk:
+        if okk is None:
+            pass
+        elif okk:
             R.ok("is_function_entry_with_func", detail="Some(func) exactly when func.entry() == self", where=g_["sp"])
         else:
             R.bad("is_function_entry_with_func", "CfgNode::is_function_entry_with_func does not answer `Some(func)` under `func.entry() == self`: lints that start from a function's entry (garbage input values, overlapping functions) start elsewhere or nowhere", g_["sp"])
@@ -2886,6 +2967,20 @@ def c03h(F, R):
     f = F.fn(cn[0])
     body = f["hir"]["value"]
     clears = [m for m in walk(body, pats=False) if m.get("k") == "MethodCall" and m["name"] == "clear" and "HashSet" in (recv_ty_(m) or "")]
+    # `for label in pending.drain() { map.insert(label, node) }` hands over and empties in one go
+    drains = []
+    for fl in for_loops(body):
+        d_ = [m for m in walk(fl["iter"], pats=False) if m.get("k") == "MethodCall" and m["name"] == "drain" and "HashSet" in (recv_ty_(m) or "")]
+        if d_:
+            drains.append((d_[0], fl))
+    for n_, (d_, fl) in enumerate(drains):
+        P_ = ekey(d_["recv"]).lstrip("&*")
+        if any(m.get("k") == "MethodCall" and m["name"] == "insert" and "HashMap" in (recv_ty_(m) or "") for m in walk(fl["body"], pats=False)):
+            R.ok(f"drain#{n_ + 1}", detail=f"every label drained from `{P_}` is inserted into the label map", where=loc(d_))
+        else:
+            R.bad(f"drain#{n_ + 1}", f"`{P_}.drain()` empties the pending labels without inserting them into the label -> node map", loc(d_))
+    if not clears and drains:
+        return
     if not clears:
         R.bad("shape", "UNEXTRACTABLE: the pending label set is never cleared in Cfg::new", f["sp"])
         return
